@@ -26,7 +26,8 @@ RULE = (
     "without structure names) and an optional return annotation, the failure planted at every parameter "
     "position or at the return value; typeguard for all, beartype for class-only annotations; both values "
     "of the remove-typechecker-stack switch; observed: exception class, stage sentence, blamed parameter, "
-    "name=value lines, __cause__; non-trivial = a TypeCheckError or AnnotationError was raised after at "
+    "name=value lines, __cause__; directed: misuse ({name} parts naming no argument, unbound symbolic names, '?' outside a structured "
+    "PyTree) in parameter and return annotations, and one identifier used both as plain axis and as multi-axis name; non-trivial = a TypeCheckError or AnnotationError was raised after at "
     "least one accepted parameter; distinct by call"
 )
 TRUSTED = [
@@ -174,7 +175,27 @@ def annotation_error_cases():
         mk([dict(name="x", **a("a", [2])), dict(name="y", ty={"t": "pytree", "l": {"t": "pytree", "l": arr_type("?a"), "s": "S"}, "s": "T"},
                                                      val={"t": "tuple", "xs": [arr_val([2])]})]),
     ]
+    # a `{name}` part that names nothing the call was given (a typo, a local variable, a forgotten `self.`), in a
+    # parameter annotation and in the return annotation, alone and after accepted parameters
+    cases += [
+        mk([dict(name="x", **a("{sizes}", [3]))]),
+        mk([dict(name="x", **a("a", [2])), dict(name="y", **a("a {k}", [2, 3]))]),
+        mk([dict(name="x", **a("a", [2]))], a("{n}*a", [4])),
+        mk([dict(name="x", **a("a", [2])), dict(name="y", **a("b", [3]))], a("a {x.size}+{nope}", [2, 4])),
+    ]
     return cases
+
+
+def same_name_cases():
+    """one identifier used both as a plain axis and as a multi-axis name: two independent bindings, both listed"""
+    mk = lambda params, ret=None: {"op": "call", "kind": "new", "params": params, "ret": ret, "bindok": True, "notc": False, "body": [], "exit": "ret"}  # noqa: E731
+    a = lambda d, s: {"ty": arr_type(d), "val": arr_val(s)}  # noqa: E731
+    return [
+        mk([dict(name="w", **a("a b", [5, 4])), dict(name="x", **a("*a b", [2, 3, 4])), dict(name="bias", **a("b", [7]))]),
+        mk([dict(name="w", **a("*a b", [2, 3, 4])), dict(name="x", **a("a b", [5, 4])), dict(name="bias", **a("b", [7]))]),
+        mk([dict(name="w", **a("v *v", [5, 2, 3])), dict(name="x", **a("#*v", [1, 3]))], a("v 9", [5, 4])),
+        mk([dict(name="w", **a("a *#a", [2, 1, 3])), dict(name="x", **a("*a a", [4, 3, 2]))], a("a a", [2, 3])),
+    ]
 
 
 def run(tier, seed, out, drv, facts):
@@ -183,6 +204,9 @@ def run(tier, seed, out, drv, facts):
     for call in annotation_error_cases():
         for ck in ("typeguard", "beartype"):
             run_call(out, drv, facts, call, ck, False, rng, "misuse")
+    for call in same_name_cases():
+        for rs in (False, True):
+            run_call(out, drv, facts, call, "typeguard", rs, rng, "same-name")
     n = 40000 if thorough else 400
     for i in range(n):
         call, class_only = gen_call(rng, thorough)
